@@ -193,10 +193,10 @@ theorem filterA_spec (p : Int → Bool) (A : List Int) (dst : Option Win) (s1 : 
   have := aselLoop_spec (statelessSel p) () A dst s1 hs1 hd
   rwa [selSpec_stateless] at this
 
-theorem diffA_spec (A : List Int) (dst : Option Win) (s1 s2 : Win) (hs1 : s1.off + s1.len ≤ A.length)
+theorem diffA_spec (E : ElemEq) (A : List Int) (dst : Option Win) (s1 s2 : Win) (hs1 : s1.off + s1.len ≤ A.length)
     (hd : ∀ w, dst = some w → w.off + w.cap ≤ A.length ∧ SafeDst w s1) :
-    ∃ A' res, diffA A dst s1 s2 = some (A', res) ∧
-      ArenaDstOk ((s1.read A).filter fun v => !(s2.read A).contains v) A dst A' res := by
+    ∃ A' res, diffA E A dst s1 s2 = some (A', res) ∧
+      ArenaDstOk ((s1.read A).filter fun v => !memE E (s2.read A) v) A dst A' res := by
   unfold diffA
   by_cases h1 : s1.len = 0
   · simp only [h1, if_true]
@@ -206,43 +206,43 @@ theorem diffA_spec (A : List Int) (dst : Option Win) (s1 s2 : Win) (hs1 : s1.off
   · by_cases h2 : s2.len = 0
     · simp only [h1, h2, if_false, if_true, afinish, Option.map_some]
       have h2' : s2.read A = [] := read_nil_of_len A s2 h2
-      have hf : ((s1.read A).filter fun v => !([] : List Int).contains v) = s1.read A :=
-        List.filter_eq_self.mpr (by simp)
+      have hf : ((s1.read A).filter fun v => !memE E ([] : List Int) v) = s1.read A :=
+        List.filter_eq_self.mpr (by simp [memE_nil])
       rw [h2', hf]
       exact ⟨_, _, rfl, apushAll_spec A dst (s1.read A) (fun w hw => (hd w hw).1)⟩
     · simp only [h1, h2, if_false]
-      have := aselLoop_spec (statelessSel fun v => !(s2.read A).contains v) () A dst s1 hs1 hd
+      have := aselLoop_spec (statelessSel fun v => !memE E (s2.read A) v) () A dst s1 hs1 hd
       rwa [selSpec_stateless] at this
 
-theorem intersectA_spec (A : List Int) (dst : Option Win) (s1 s2 : Win) (hs1 : s1.off + s1.len ≤ A.length)
+theorem intersectA_spec (E : ElemEq) (A : List Int) (dst : Option Win) (s1 s2 : Win) (hs1 : s1.off + s1.len ≤ A.length)
     (hd : ∀ w, dst = some w → w.off + w.cap ≤ A.length ∧ SafeDst w s1) :
-    ∃ A' res, intersectA A dst s1 s2 = some (A', res) ∧
-      ArenaDstOk ((s1.read A).filter fun v => (s2.read A).contains v) A dst A' res := by
+    ∃ A' res, intersectA E A dst s1 s2 = some (A', res) ∧
+      ArenaDstOk ((s1.read A).filter fun v => memE E (s2.read A) v) A dst A' res := by
   unfold intersectA
   by_cases h0 : s1.len = 0 ∨ s2.len = 0
   · simp only [h0, if_true]
-    have : ((s1.read A).filter fun v => (s2.read A).contains v) = [] := by
+    have : ((s1.read A).filter fun v => memE E (s2.read A) v) = [] := by
       rcases h0 with h0 | h0
       · rw [read_nil_of_len A s1 h0]; rfl
-      · rw [read_nil_of_len A s2 h0]; simp
+      · rw [read_nil_of_len A s2 h0]; simp [memE_nil]
     rw [this]
     exact ⟨A, _, rfl, arenaDstOk_init A dst⟩
   · simp only [h0, if_false]
-    have := aselLoop_spec (statelessSel fun v => (s2.read A).contains v) () A dst s1 hs1 hd
+    have := aselLoop_spec (statelessSel fun v => memE E (s2.read A) v) () A dst s1 hs1 hd
     rwa [selSpec_stateless] at this
 
-theorem uniqueByKeyA_spec (key : Int → Int) (A : List Int) (dst : Option Win) (s1 : Win)
+theorem uniqueByKeyA_spec (E : ElemEq) (key : Int → Int) (A : List Int) (dst : Option Win) (s1 : Win)
     (hs1 : s1.off + s1.len ≤ A.length)
     (hd : ∀ w, dst = some w → w.off + w.cap ≤ A.length ∧ SafeDst w s1) :
-    ∃ A' res, uniqueByKeyA key A dst s1 = some (A', res) ∧
-      ArenaDstOk (firstOcc key [] (s1.read A)) A dst A' res := by
+    ∃ A' res, uniqueByKeyA E key A dst s1 = some (A', res) ∧
+      ArenaDstOk (firstOccE E key [] (s1.read A)) A dst A' res := by
   unfold uniqueByKeyA
   by_cases h1 : s1.len = 0
   · simp only [h1, if_true]
     rw [read_nil_of_len A s1 h1]
-    exact ⟨A, _, rfl, by simpa [firstOcc] using arenaDstOk_init A dst⟩
+    exact ⟨A, _, rfl, by simpa [firstOccE] using arenaDstOk_init A dst⟩
   · simp only [h1, if_false]
-    have := aselLoop_spec (uniqueSel key) ([], 0) A dst s1 hs1 hd
-    rwa [show (([] : List Int), 0) = (([] : List Int), ([] : List Int).length) from rfl, selSpec_unique] at this
+    have := aselLoop_spec (uniqueSelE E key) ([], 0) A dst s1 hs1 hd
+    rwa [show (([] : List Int), 0) = (([] : List Int), ([] : List Int).length) from rfl, selSpec_uniqueE] at this
 
 end Golib.C14
